@@ -94,6 +94,20 @@ func (f *Finding) matches(p *Property, v *Violation) bool {
 	return true
 }
 
+// Matcher returns the function that maps a violation to the index of the known finding that
+// lists it, or -1.
+func Matcher(p *Property) func(v *Violation) int {
+	findings := loadFindings()
+	return func(v *Violation) int {
+		for fi := range findings {
+			if findings[fi].matches(p, v) {
+				return fi
+			}
+		}
+		return -1
+	}
+}
+
 type evidence struct {
 	PropertyID  string         `json:"property_id"`
 	Tier        string         `json:"tier"`
@@ -218,6 +232,9 @@ func RunCheck(p *Property, tier string) int {
 			total.Max(k, v)
 		}
 		total.Violations = append(total.Violations, r.Violations...)
+		for k, v := range r.KnownHits {
+			total.KnownHits[k] += v
+		}
 		total.NViolations += r.NViolations
 		for _, sm := range r.Samples {
 			total.Sample(sm)
@@ -251,24 +268,17 @@ func RunCheck(p *Property, tier string) int {
 		os.WriteFile(dump, b, 0o644)
 	}
 	findings := loadFindings()
-	knownHit := map[int]int{}
-	var unlisted []Violation
-	for i := range total.Violations {
-		v := &total.Violations[i]
-		matched := false
-		for fi := range findings {
-			if findings[fi].matches(p, v) {
-				knownHit[fi]++
-				matched = true
-				break
-			}
-		}
-		if !matched {
-			unlisted = append(unlisted, *v)
-		}
+	knownHit := map[int]int64{}
+	for k, v := range total.KnownHits {
+		knownHit[k] = v
 	}
-	// If the per-worker cap truncated violations, the uncaptured ones cannot be matched: say so.
-	truncated := total.NViolations > int64(len(total.Violations))
+	// workers already removed the listed violations; everything captured is unlisted
+	unlisted := total.Violations
+	var nListed int64
+	for _, v := range knownHit {
+		nListed += v
+	}
+	nUnlisted := total.NViolations - nListed
 
 	exit := 0
 	var fis []int
@@ -306,9 +316,6 @@ func RunCheck(p *Property, tier string) int {
 		exit = 1
 	}
 	_ = sampleReplay
-	if truncated && exit == 0 && len(unlisted) == 0 && len(total.Violations) > 0 {
-		fmt.Fprintf(os.Stderr, "note: %d violations observed, %d captured (all captured ones are listed findings)\n", total.NViolations, len(total.Violations))
-	}
 
 	// evidence
 	cov := map[string]any{
@@ -337,13 +344,13 @@ func RunCheck(p *Property, tier string) int {
 		cov["samples"] = []string{"(no sample recorded)"}
 	}
 	ev := evidence{PropertyID: p.ID, Tier: tier, Seed: seed, Level: p.Level, Coverage: cov,
-		Assumptions: p.Assumptions, WallS: time.Since(start).Seconds(), Violations: len(unlisted)}
+		Assumptions: p.Assumptions, WallS: time.Since(start).Seconds(), Violations: int(nUnlisted)}
 	b, _ := json.MarshalIndent(ev, "", " ")
 	os.MkdirAll(filepath.Join(Root(), "evidence"), 0o755)
 	os.WriteFile(filepath.Join(Root(), "evidence", p.ID+".json"), b, 0o644)
 
 	fmt.Printf("%s %s: evaluations=%d distinct_nontrivial=%d outcomes=%d violations=%d (unlisted %d) exhaustive=%v wall=%.1fs\n",
-		p.ID, tier, total.Evaluations, len(total.keyset), len(total.Outcomes), total.NViolations, len(unlisted), total.Exhaustive, time.Since(start).Seconds())
+		p.ID, tier, total.Evaluations, len(total.keyset), len(total.Outcomes), total.NViolations, nUnlisted, total.Exhaustive, time.Since(start).Seconds())
 	if p.Level == "model_checking" {
 		fmt.Printf("  states=%d transitions=%d validated=%d\n", total.States, total.Transitions, total.Validated)
 	}
